@@ -175,7 +175,7 @@ def infer_lens(n, log, hint=None):
 
 
 def execute(CphotAng, inputs, oracle, mode, fail=0, W=1, steps=None, order=None, shake=0, psize_override=None,
-            det_alt=525.0, obj=None, _probe=False, cloud=None):
+            det_alt=525.0, obj=None, _probe=False, cloud=None, force_opaque=False):
     """Run one batch and return its trace (list of TraceBatch events)."""
     import dask.bag as db
     beta, alt, E, lat, lon = inputs
@@ -234,7 +234,7 @@ def execute(CphotAng, inputs, oracle, mode, fail=0, W=1, steps=None, order=None,
             lens = infer_lens(n, log, LENS.get(lkey))
         if lens is not None and raised is None and lkey not in LENS:
             LENS[lkey] = lens
-    opaque = lens is None
+    opaque = lens is None or force_opaque
     if opaque:
         # the partition results could not be read as result pairs that add up to the batch: the partition-level clauses of the model
         # are skipped for this execution (one partition = the whole call), the outcome clauses - what C10 states - are judged
@@ -403,6 +403,42 @@ def run(tier="quick", seed=0):
         for i in (0, len(src[0]) // 2, len(src[0]) - 1):
             one = tuple(x[i:i + 1] for x in src)
             traces.append(execute(CphotAng, one, Oracle(CphotAng, one, det_alt=da), "synchronous", 0, 1, det_alt=da))
+    # the stage that feeds the kernel (EAS.__call__: range cut, then the batch): a batch with decays outside the simulated window in between and a
+    # SITE-DEPENDENT cloud top must return, event by event, what the stage returns for the event alone (outcome clauses only: the
+    # partitions of the inner graph hold kernel results, not stage results)
+    from nuspacesim.simulation.eas_optical.eas import EAS
+
+    class StageOracle(Oracle):
+        def __init__(self, stage, inputs, cloud):
+            beta, alt, E, lat, lon = inputs
+            self.keys, self.raises = [], set()
+            for i in range(len(beta)):
+                try:
+                    with daskkit.scheduler_ctx("synchronous"):
+                        d, a = stage(beta[i:i + 1], alt[i:i + 1], E[i:i + 1], lat[i:i + 1], lon[i:i + 1], cloudf=cloud)
+                    self.keys.append(_key(np.atleast_1d(d)[0], np.atleast_1d(a)[0]))
+                except Exception:
+                    self.raises.add(i + 1)
+                    self.keys.append(b"<raises %d>" % i)
+            self.index = {}
+            for i, k in enumerate(self.keys):
+                self.index.setdefault(k, i + 1)
+
+    def site_cloud(la, lo):
+        return np.float32(0.3 + 7.0 * abs(np.sin(41.0 * float(la) * 1000.0 + 3.0 * float(lo))))
+    ne = 60
+    inp_e = list(make_inputs(ne, seed + 51))
+    inp_e[1] = inp_e[1].copy()
+    inp_e[1][1::3] = np.random.default_rng(seed + 52).choice([-1.0, 24.0, 30.0], size=len(inp_e[1][1::3]))      # decays outside [0, 20] km in between
+    inp_e = tuple(inp_e)
+    stage = EAS(make_config({}))
+    orc_e = StageOracle(stage, inp_e, site_cloud)
+
+    class StageCall:
+        def __call__(self, b, a, E, la, lo, cloud):
+            return stage(b, a, E, la, lo, cloudf=cloud)
+    for mode, w in (("synchronous", 1), ("threads", 4)):
+        traces.append(execute(CphotAng, inp_e, orc_e, mode, 0, w, obj=StageCall(), cloud=site_cloud, force_opaque=True))
     # empty batch with the real kernel
     e0 = make_inputs(0, 1)
     traces.append(execute(CphotAng, e0, Oracle(CphotAng, e0), "synchronous", 0, 1))
